@@ -13,6 +13,7 @@ INVARIANT MhdrPointsAtNamed
 INVARIANT MhdrFlagsConsistent
 INVARIANT McinPointsAtMcnk
 INVARIANT McnkOfsPointAtNamed
+INVARIANT FileEqualsBytes
 INVARIANT McnkSizeFieldsConsistent
 INVARIANT VersionRuleHolds
 INVARIANT OnlyNamedLoss
